@@ -624,8 +624,9 @@ class Unit:
             # T2 applies to every impl of the trait: give the inherent twin the unit's default contract
             ov = dict(ov) if ov is not None else dict(file=path, name=name)
             ov.setdefault('requires', list(t2.get('requires', [])))
-            if not ov.get('ensures'):
-                ov['ensures'] = [dict(e) for e in t2.get('ensures', [])]
+            own = list(ov.get('ensures', []))
+            labels = set(e['label'] for e in own)
+            ov['ensures'] = [dict(e) for e in t2.get('ensures', []) if e['label'] not in labels] + own
             ov.setdefault('safety_owner', t2.get('safety_owner'))
         if ov is None and forced:
             ov = dict(file=path, name=name, mode='external_body')
